@@ -57,7 +57,9 @@ def wrap(V, kind, inner, level):
 
 
 def build(V, kind, d):
-    x = {'v': 1}
+    # the innermost node may provide no declared field at all (a context that parses no field must still be counted)
+    # (an empty dict under Union[int, N] is a valid *int* (0) in lenient mode, so it is not used there)
+    x = V.pick('leaf', [{'v': 1}, {'unknown': 1}] if kind == 'union' else [{'v': 1}, {}, {'unknown': 1}])
     for level in range(d - 1, 0, -1):
         x = {'v': level, 'c': wrap(V, kind, x, level)}
     return x
@@ -102,7 +104,7 @@ for _k in KINDS:
        bounds='route kind %s; chain of D data classes (D=4 quick (3 for dictlist), 5 thorough) each with Options(max_depth=m); m in 1..D+1 '
               'and the input depth d in 1..D are solver integers; the position of the nested value at every level is '
               'solver-chosen: list/tuple index 0..1 (thorough: 0..2 + optional trailing element), mapping key a symbolic string of '
-              'length <= 1 over {a,b} (includes the empty key); accepted <=> d <= m' % _k,
+              'length <= 1 over {a,b} (includes the empty key); the innermost node provides a field, nothing, or only an unknown key; accepted <=> d <= m' % _k,
        out='depths > 5; max_depth <= 0 (documented as "no limit")')((lambda k: lambda V: _exact(V, k))(_k))
 
 
@@ -157,7 +159,7 @@ def _cyclic(V, m):
 def _self_ref_exact(V, m):
     d = V.pick('d', [1, 2, 3, 4, 5, 6] if V.thorough else [1, 2, 3, 4, 5])
     cls = self_cls(m)
-    x = {'v': 1}
+    x = V.pick('leaf', [{'v': 1}, {'unknown': 1}])
     for level in range(d - 1, 0, -1):
         k = V.pick('route%d' % level, ['c', 'kids0', 'kids1', 'key_empty', 'key_k', 'alt'] if level <= 2 or V.thorough
                    else ['c', 'kids0', 'key_empty'])
